@@ -236,6 +236,10 @@ func (c *regexpSimplifyChecker) walk(e syntax.Expr) {
 		out.WriteString(e.Value)
 
 	case syntax.OpNegCharClass:
+		if c.hasEscapedRangeBound(e) {
+			out.WriteString(e.Value)
+			break
+		}
 		s := c.simplifyNegCharClass(e)
 		if s != "" {
 			c.out.WriteString(s)
@@ -247,6 +251,10 @@ func (c *regexpSimplifyChecker) walk(e syntax.Expr) {
 		}
 
 	case syntax.OpCharClass:
+		if c.hasEscapedRangeBound(e) {
+			out.WriteString(e.Value)
+			break
+		}
 		s := c.simplifyCharClass(e)
 		if s != "" && s[0] >= '0' && s[0] <= '7' && c.endsWithShortOctal() {
 			s = "" // `\0[1]` is not `\01`
@@ -375,6 +383,17 @@ func startsWithRepeatOp(s string) bool {
 		rest = digits(rest[1:])
 	}
 	return strings.HasPrefix(rest, "}")
+}
+
+// hasEscapedRangeBound reports whether the char class e has a range like `\/-x`:
+// Go reads it as a range from `/` to `x`, the parser we use doesn't.
+func (c *regexpSimplifyChecker) hasEscapedRangeBound(e syntax.Expr) bool {
+	for i := 0; i+2 < len(e.Args); i++ {
+		if e.Args[i].Op == syntax.OpEscapeChar && e.Args[i+1].Op == syntax.OpChar && e.Args[i+1].Value == "-" {
+			return true
+		}
+	}
+	return false
 }
 
 // walkCharClassArgs walks char class elements.
